@@ -60,6 +60,8 @@ pub enum Feed<'a> {
     /// a SOCK_SEQPACKET socket pair: every read(2) returns exactly one piece, whatever the timing
     /// (pieces must not exceed the reader's buffer)
     Packets(&'a [Vec<u8>]),
+    /// standard input is this path opened read-only (a file, or a directory to make reads fail)
+    Path(&'a str),
 }
 
 /// Runs `naija <script file>` with the given stdin.
@@ -88,6 +90,10 @@ pub fn run_naija_args(bin: &str, args: &[&str], feed: Feed<'_>) -> Result<NaijaR
         }
         Feed::Pipe(_) => {
             cmd.stdin(Stdio::piped());
+        }
+        Feed::Path(p) => {
+            let f = std::fs::File::open(p).map_err(|e| format!("open {p}: {e}"))?;
+            cmd.stdin(Stdio::from(f));
         }
         Feed::Packets(_) => {
             let mut fds = [0i32; 2];
@@ -126,7 +132,7 @@ pub fn run_naija_args(bin: &str, args: &[&str], feed: Feed<'_>) -> Result<NaijaR
         });
     }
     match feed {
-        Feed::Null => {}
+        Feed::Null | Feed::Path(_) => {}
         Feed::Pipe(pieces) => {
             let mut stdin = child.stdin.take().unwrap();
             let pieces = pieces.to_vec();
